@@ -157,7 +157,16 @@ class World:
         return self
 
     def _teardown(self) -> None:
+        import warnings
+
         loop = self.loop
+        with warnings.catch_warnings():
+            # cancelling what is left at the end of a run leaves never-awaited inner coroutines
+            # (e.g. the delayed _connect); leaks are judged by the oracles, not by warnings
+            warnings.simplefilter("ignore")
+            self._teardown_inner(loop)
+
+    def _teardown_inner(self, loop) -> None:
         try:
             if not loop.is_closed():
                 # Cancel whatever is left so that coroutine objects are closed.
